@@ -12,7 +12,7 @@ import (
 
 // C09 — CSV text round-trips through the tokenizer for any table and configuration.
 
-var c09Fields = []string{"", "a", " ", "a b", ",", ";", "\t", "\"", "'", "\"\"", "\"a\"", "\n", "\r", "\r\n", "x\ny", "я", "яa", "é", "￾", "a\"b", "”", "→", "\ufffd", "«", "\ufeffa"}
+var c09Fields = []string{"", "a", " ", "a b", ",", ";", "\t", "\"", "'", "\"\"", "\"a\"", "\n", "\r", "\r\n", "x\ny", "я", "яa", "é", "￾", "a\"b", "”", "→", "\ufffd", "«", "\ufeffa", "я\"b", "→\"\"é"}
 var c09FieldsSmall = []string{"", "a", ",", "\"", "\n", "\r", "яa", "→"}
 
 type c09Cfg struct {
